@@ -791,6 +791,6 @@ impl Property for C07 {
         }
     }
     fn label_floors(&self) -> Vec<(&'static str, f64)> {
-        vec![("pop_then_use", 0.2), ("grew", 0.05), ("alias_write", 0.03), ("script_family", 0.1), ("script_path:captured", 0.05), ("script_path:fn_param", 0.05)]
+        vec![("pop_then_use", 0.2), ("grew", 0.05), ("alias_write", 0.03), ("script_family", 0.02), ("script_path:captured", 0.01), ("script_path:fn_param", 0.01)]
     }
 }
